@@ -270,14 +270,15 @@ impl<Db: Database> StorageManager<Db> {
             return Ok(());
         }
 
-        // update the cache
+        // write to the database
+        self.tic_toc(METRIC_WRITE_TIME, self.db.set(record.clone()))
+            .await?;
+        self.increment_metric(METRIC_SET);
+
+        // update the cache, only once the database has accepted the write
         if let Some(cache) = &self.cache {
             cache.put(&record).await;
         }
-
-        // write to the database
-        self.tic_toc(METRIC_WRITE_TIME, self.db.set(record)).await?;
-        self.increment_metric(METRIC_SET);
         Ok(())
     }
 
@@ -296,18 +297,18 @@ impl<Db: Database> StorageManager<Db> {
             return Ok(());
         }
 
-        // update the cache
-        if let Some(cache) = &self.cache {
-            cache.batch_put(&records).await;
-        }
-
         // Write to the database
         self.tic_toc(
             METRIC_WRITE_TIME,
-            self.db.batch_set(records, DbSetState::General),
+            self.db.batch_set(records.clone(), DbSetState::General),
         )
         .await?;
         self.increment_metric(METRIC_BATCH_SET);
+
+        // update the cache, only once the database has accepted the write
+        if let Some(cache) = &self.cache {
+            cache.batch_put(&records).await;
+        }
         Ok(())
     }
 
